@@ -35,6 +35,10 @@ POOL = _pool()
 ORDINARY = [i for i, n in enumerate(POOL) if n in ("\ufb01sh", "SHEEP", "WOLF", "sheep", "x", "Tag1")]   # (the first is spelt with the ligature U+FB01)
 
 
+import numpy as _np
+_NP_IDS = [_np.int64(i) for i in range(16)]
+
+
 def _len(lib):
     # _len(lib) dispatches on the type; CrossHair's patched len() looks __len__ up on the instance, which differs once a
     # tag called "__len__" sits in the instance dict - call what real Python calls
@@ -60,6 +64,8 @@ def _ops_work(lib, names_expected):
     for i, nm in enumerate(names_expected):
         if lib.get_tag_name(i) != nm:
             return hx.fail("get_tag_name(id)", id=i, got=lib.get_tag_name(i), exp=nm)
+        if lib.get_tag_name(_NP_IDS[i]) != nm:         # ids often come out of numpy arrays of agent tags
+            return hx.fail("get_tag_name(id) with a numpy integer id", id=i, exp=nm)
         v = getattr(lib, nm)
         if type(v) is not int or v != i:
             return hx.fail("lookup by name does not give the id", name=nm, got=v, exp=i)
@@ -283,6 +289,25 @@ def isolation(i: int) -> bool:
             return hx.end(hx.fail("libraries after independent adds", a=a.itemize(), b=b.itemize()))
     except Exception as e:
         return hx.end(hx.fail("library operation broken", error=repr(e)))
+    # ... and the other way round: what the GLOBAL library holds does not decide what a fresh local one accepts
+    try:
+        try:
+            Tags.add_tag(nm)
+        except DuplicateTagError:
+            pass
+        c = TagLibrary()
+        rc = True
+        try:
+            c.add_tag(nm)
+        except DuplicateTagError:
+            rc = False
+        if rc != ra:
+            return hx.end(hx.fail("acceptance in a local library depends on the global library's tags", name=nm, fresh_local=ra,
+                                  after_global_add=rc))
+        if c.itemize() != exp:
+            return hx.end(hx.fail("local library after a global add of the same name", got=c.itemize(), exp=exp))
+    finally:
+        _reset_module()
     return hx.end(True)
 
 
